@@ -28,6 +28,15 @@ structure Info where
   via : Bool := false     -- non-empty seedVia
   redirects : Nat := 0
   hops : Nat := 0
+  -- fields used by the stage model (Model/Stages.lean)
+  raw : String := ""      -- URL text as discovered (before normalisation)
+  host : String := ""     -- host (with port) of the normalised URL
+  path : String := ""     -- path of the normalised URL
+  req : Bool := false     -- a request object is attached (only then the archiver fetches it)
+  resp : Nat := 0         -- status code of the response (0 = none)
+  loc : String := ""      -- Location header of the response
+  html : Bool := false    -- the sniffed MIME type contains "html"
+  body : Bool := false    -- ProcessBody kept the body for post-processing
 deriving DecidableEq, Repr, Inhabited
 
 mutual
